@@ -371,7 +371,8 @@ func TestVerifC03Router(t *testing.T) {
 	n := vk.N(1000, 120000)
 	r := m.Rand("tables")
 	paths := c03Paths()
-	reqMethods := []string{"GET", "POST", "PUT", "DELETE", "HEAD", "OPTIONS", "PATCH"}
+	// the seven registrable methods plus methods no route can have (for them only 405 + Allow or 404 is possible)
+	reqMethods := []string{"GET", "POST", "PUT", "DELETE", "HEAD", "OPTIONS", "PATCH", "TRACE", "CONNECT", "PROPFIND", "get"}
 	classes := map[string]int64{}
 	for idx := 1; idx <= n; idx++ {
 		regs := c03GenTable(r)
@@ -414,10 +415,33 @@ func TestVerifC03Router(t *testing.T) {
 		tb := &c03Table{rt: NewRouter().(*patRouter)}
 		tb.installFallbacks(useNF, useNA)
 		v0 := m.ViolCount()
-		for _, reg := range regs {
+		// registration interleaved with serving: after the first half of the registrations a sample of
+		// requests is served (answers such as 405 + Allow must not be remembered), then the rest is registered
+		local := map[string]int64{}
+		half := len(regs)
+		if idx%2 == 0 && len(regs) >= 2 {
+			half = len(regs) / 2
+		}
+		for _, reg := range regs[:half] {
 			tb.register(m, desc, reg)
 		}
-		local := map[string]int64{}
+		if half < len(regs) && m.ViolCount() == v0 {
+		early:
+			for i, p := range extra {
+				for _, method := range reqMethods {
+					local[tb.request(m, desc, method, p)]++
+					if m.ViolCount() > v0 {
+						break early
+					}
+				}
+				if i > 40 {
+					break
+				}
+			}
+		}
+		for _, reg := range regs[half:] {
+			tb.register(m, desc, reg)
+		}
 		if m.ViolCount() == v0 {
 		loop:
 			for _, ps := range [][]string{paths, extra} {
